@@ -178,6 +178,30 @@ let clause_name = function
   | K_C07_pressed -> "C07.pressed"
   | K_C19 -> "C19"
 
+let clause8_name = function
+  | K8_fires -> "C08.fires"
+  | K8_held -> "C08.held"
+  | K8_refire -> "C08.refire"
+  | K8_counts -> "C08.counts"
+
+(* canonical string key of the C08 ghost *)
+let ghost_key (b : Buffer.t) (g : aghost) =
+  let pairs = List.sort compare (List.map (fun (m, t) -> (int_of_n m, int_of_n t)) g.ag_abs) in
+  List.iter (fun (m, t) -> Buffer.add_string b (string_of_int m); Buffer.add_char b ':';
+              Buffer.add_string b (string_of_int t); Buffer.add_char b ',') pairs;
+  Buffer.add_char b '|';
+  List.iter (fun k -> Buffer.add_string b (string_of_int k); Buffer.add_char b ',')
+    (List.sort compare (List.map int_of_n g.ag_counts));
+  Buffer.add_char b '|';
+  (match g.ag_last with
+   | None -> Buffer.add_char b '-'
+   | Some ((m, t), p) ->
+     Buffer.add_string b (string_of_int (int_of_n t)); Buffer.add_char b '@';
+     List.iter (fun k -> Buffer.add_string b (string_of_int (int_of_n k)); Buffer.add_char b '>') m.m_from;
+     List.iter (fun k -> Buffer.add_string b (string_of_int (int_of_n k)); Buffer.add_char b '<') m.m_to;
+     List.iter (fun k -> Buffer.add_string b (string_of_int k); Buffer.add_char b ',')
+       (List.sort compare (List.map int_of_n p)))
+
 (* canonical string key of a model state *)
 let state_key (b : Buffer.t) (s : state) =
   let ks l = List.iter (fun k -> Buffer.add_string b (string_of_int (int_of_n k)); Buffer.add_char b ',') l in
@@ -200,6 +224,7 @@ let sorted_ints (l : key list) : int list = List.sort compare (List.map int_of_n
 
 type pnode = {
   node : int; ms : state; phys : key list; held_i : key list; held_m : key list;
+  ghost : aghost;   (* C08 history ghost (Absorb.v) *)
   parent : int; via : label;
 }
 
@@ -229,7 +254,7 @@ let check_table (t : table) (max_pairs : int) =
     (findings, 0, 0, 0)
   end else begin
     let visited : (string, int) Hashtbl.t = Hashtbl.create 4096 in
-    let nodes = ref (Array.make 1024 { node = 0; ms = x_init; phys = []; held_i = []; held_m = []; parent = -1; via = LA }) in
+    let nodes = ref (Array.make 1024 { node = 0; ms = x_init; phys = []; held_i = []; held_m = []; ghost = x_ag_init; parent = -1; via = LA }) in
     let count = ref 0 in
     let buf = Buffer.create 256 in
     let key_of (p : pnode) =
@@ -241,6 +266,8 @@ let check_table (t : table) (max_pairs : int) =
       List.iter (fun k -> Buffer.add_string buf (string_of_int k); Buffer.add_char buf ',') (sorted_ints p.held_i);
       Buffer.add_char buf '#';
       List.iter (fun k -> Buffer.add_string buf (string_of_int k); Buffer.add_char buf ',') (sorted_ints p.held_m);
+      Buffer.add_char buf '#';
+      ghost_key buf p.ghost;
       Buffer.contents buf in
     let push (p : pnode) : bool =
       let k = key_of p in
@@ -256,7 +283,17 @@ let check_table (t : table) (max_pairs : int) =
         incr count;
         true
       end in
-    ignore (push { node = 0; ms = x_init; phys = []; held_i = []; held_m = []; parent = -1; via = LA });
+    ignore (push { node = 0; ms = x_init; phys = []; held_i = []; held_m = []; ghost = x_ag_init; parent = -1; via = LA });
+    (* C08 is proved for layouts in K1 /\ K2; outside, a hit belongs to a recorded class (KNOWN_FINDINGS.txt) *)
+    let in_k1 = x_K1 t.layout and in_k2 = x_K2 t.layout in
+    let known8 (c : clause8) : string =
+      match c with
+      | K8_held ->
+        if not in_k2 then " known=non-key-producing-mapping-presses-ordinary-key"
+        else if not in_k1 then " known=absorbing-mapping-not-key-producing" else ""
+      | _ ->
+        if not in_k1 then " known=absorbing-mapping-not-key-producing"
+        else if not in_k2 then " known=non-key-producing-mapping-presses-ordinary-key" else "" in
     let next = ref 0 in
     let edges_checked = ref 0 in
     let fired_edges = ref 0 in
@@ -291,6 +328,19 @@ let check_table (t : table) (max_pairs : int) =
                     (Printf.sprintf "MONITOR layout=%d clause=%s history=%s observed=[%s]\n" t.id name
                        (history !nodes !count idx (Some e.lab)) (evs_str e.evs))
                 end) bad;
+            (* C08: the history checker on the REAL outputs (fired mapping = the specification's choice) *)
+            let bad8 = x_c08_check t.layout p.ms ms' p.phys p.held_i p.ghost inp evs_i in
+            List.iter (fun c ->
+                let name = clause8_name c in
+                (* clauses decided from the specification state alone are reported only where the real
+                   step's events equal the model's, so that the hit is a statement about the real code *)
+                let about_impl = (match c with K8_held -> true | _ -> List.map ev_to evs_m = e.evs) in
+                if about_impl && not (Hashtbl.mem clause_found name) then begin
+                  Hashtbl.add clause_found name ();
+                  Buffer.add_string findings
+                    (Printf.sprintf "MONITOR layout=%d clause=%s%s history=%s observed=[%s]\n" t.id name (known8 c)
+                       (history !nodes !count idx (Some e.lab)) (evs_str e.evs))
+                end) bad8;
             (* C09: the repeat request of the REAL step against the specification's expected_repeat *)
             (match inp with
              | IEv ev ->
@@ -321,7 +371,8 @@ let check_table (t : table) (max_pairs : int) =
                 end) ds;
             if e.dst >= 0 then
               ignore (push { node = e.dst; ms = ms'; phys = x_phys_after p.phys inp;
-                             held_i = held_i'; held_m = held_m'; parent = idx; via = e.lab })
+                             held_i = held_i'; held_m = held_m';
+                             ghost = x_ag_step t.layout p.ms p.phys p.ghost inp; parent = idx; via = e.lab })
           end) t.edges.(p.node)
     done;
     (* C06 on the implementation's own table: every rest node answers like node 0 *)
